@@ -14,6 +14,8 @@ package max
 //@ func (g *gen) genTwo(typ, typ2 types.Type) (err error)
 //@ param typ2: same=typ
 //@ emits: decls
+// only the sign of derived Compare is specified here (a user Compare method may return any negative or positive number)
+//@ o-order-by-sign: true
 //@ serves: max len=2 same typ=typs[0] typ2=typs[1]
 //@ o-sig: (a, b $typ) (r $typ)
 //@ o-pure
@@ -22,6 +24,8 @@ package max
 
 //@ func (g *gen) genSlice(typ *types.Slice, typ2 types.Type) (err error)
 //@ emits: decls
+// only the sign of derived Compare is specified here (a user Compare method may return any negative or positive number)
+//@ o-order-by-sign: true
 //@ serves: max len=2 notsame kind=Slice typ=typs[0] typ2=typs[1]
 //@ o-sig: (list []$elem(typ), def $elem(typ)) (r $elem(typ))
 //@ o-pure
